@@ -16,7 +16,7 @@ import (
 func init() { Registry["C12"] = C12 }
 
 var c12Numerals = []string{
-	"0", "-0", "0.0", "1", "1.0", "01", "1e0", "10", "010", "9", "2", "100", "0100", "1e2",
+	"0", "-0", "0.0", "1", "1.0", "01", "1e0", "10", "010", "9", "2", "100", "0100", "1e2", "1E2", "1.50E+1", "15",
 	"0.1", "0.2", "0.3", "0.30000000000000004",
 	"1e-130", "9.9999999999999999999999999999999999999e125",
 	"9007199254740992", "9007199254740993",
@@ -227,7 +227,7 @@ func C12(run *ev.Run, tier string) map[string]interface{} {
 		}
 	}
 	// 3. number keys through the client API: identity by value (hash and range position) and order
-	keyNums := []string{"0", "-0", "0.0", "1", "1.0", "1.00", "01", "1e0", "10", "10.0", "010", "8", "9", "2", "2.0", "20", "20.0", "100", "100.00", "1e2", "0.1", "0.10", "0.5", "5e-1", "-1", "-1.50", "-10.0", "9007199254740992", "9007199254740993"}
+	keyNums := []string{"0", "-0", "0.0", "1", "1.0", "1.00", "01", "1e0", "10", "10.0", "010", "8", "9", "2", "2.0", "20", "20.0", "100", "100.00", "1e2", "0.1", "0.10", "0.5", "5e-1", "-1", "-1.50", "-10.0", "9007199254740992", "9007199254740993", "1E2", "1.50E+1", "15"}
 	for _, d := range Drivers {
 		d := d
 		for _, pos := range []string{"hash", "range"} {
